@@ -1,32 +1,50 @@
 #!/usr/bin/env python3
-"""Re-run checks against stored seeded changes.  usage: tools/reseed.py [-u] <seeded-dir-substring> [prop ...]
-Applies seeded/<dir>/patch.diff to /repo (git apply), runs ./check for the recorded property (or the given ones), undoes it.
+"""Re-run checks against stored seeded changes.  usage: tools/reseed.py [-u] [-j N] <seeded-dir-substring> [prop ...]
+Each seeded/<dir>/patch.diff is applied to its own scratch copy of /repo (src + tests, under /tmp, removed afterwards) and
+./check runs with VERIF_REPO pointing at the copy, for the recorded property (or the given ones).
 With -u the outcome is stored in meta.json under "latest"."""
-import glob, json, os, shutil, subprocess, sys
+import concurrent.futures as cf, glob, json, os, shutil, subprocess, sys, tempfile
 HERE = os.path.dirname(os.path.dirname(os.path.abspath(__file__)))
 args = sys.argv[1:]
 upd = args[:1] == ["-u"]
 if upd:
     args = args[1:]
+jobs = 3
+if args[:1] == ["-j"]:
+    jobs = int(args[1]); args = args[2:]
 pat, *props = args
-sh = lambda cmd: subprocess.run(cmd, shell=True, capture_output=True, text=True)
-for d in sorted(glob.glob(f"{HERE}/seeded/*{pat}*")):
+sh = lambda cmd, **kw: subprocess.run(cmd, shell=True, capture_output=True, text=True, **kw)
+
+
+def run(d):
     meta = json.load(open(d + "/meta.json"))
-    ps = props or [meta["property"]] + [p for p in meta.get("also_run", [])]
-    a = sh(f"git -C /repo apply {d}/patch.diff")
-    if a.returncode:
-        print(os.path.basename(d), "DOES NOT APPLY", a.stderr[:200]); continue
-    res = {}
+    ps = props or sorted(set([meta["property"]] + list(meta.get("also_run", [])) + list(meta.get("detected_by", []))))
+    t = tempfile.mkdtemp(prefix="verif_seed_")
     try:
+        shutil.copytree("/repo/src", t + "/src")
+        shutil.copytree("/repo/tests", t + "/tests")
+        a = sh(f"cd {t} && patch -p1 -s < {d}/patch.diff")
+        if a.returncode:
+            return d, None, "DOES NOT APPLY " + (a.stdout + a.stderr)[:200]
+        res = {}
         for p in ps:
-            r = sh(f"cd {HERE} && VERIF_SCRATCH=/tmp/seeded_out ./check {p}")
+            env = {**os.environ, "VERIF_REPO": t, "VERIF_SCRATCH": t + "/out", "VERIF_JOBS": "6"}
+            r = sh(f"cd {HERE} && ./check {p}", env=env)
             lines = [l for l in r.stdout.splitlines() if l.startswith(("VIOLATION", "UNDECIDED", "CHECKER"))]
-            res[p] = {"exit": r.returncode, "first": (lines[0] if lines else "")[:260]}
+            res[p] = {"exit": r.returncode, "first": (lines[0] if lines else "").replace(t, "<scratch>")[:300]}
+        return d, res, ""
     finally:
-        sh("git -C /repo checkout -- .")
-        shutil.rmtree("/tmp/seeded_out", ignore_errors=True)
-    print(os.path.basename(d), {p: v["exit"] for p, v in res.items()}, "|", next((v["first"] for v in res.values() if v["exit"] == 1), "")[:170])
-    if upd:
-        meta["latest"] = res
-        meta["detected_by"] = sorted(set(meta.get("detected_by", [])) | {p for p, v in res.items() if v["exit"] == 1})
-        json.dump(meta, open(d + "/meta.json", "w"), indent=1)
+        shutil.rmtree(t, ignore_errors=True)
+
+
+with cf.ThreadPoolExecutor(jobs) as ex:
+    for d, res, err in ex.map(run, sorted(glob.glob(f"{HERE}/seeded/*{pat}*"))):
+        if res is None:
+            print(os.path.basename(d), err); continue
+        print(os.path.basename(d), {p: v["exit"] for p, v in res.items()}, "|", next((v["first"] for v in res.values() if v["exit"] == 1), next((v["first"] for v in res.values() if v["exit"] > 1), ""))[:260], flush=True)
+        if upd:
+            meta = json.load(open(d + "/meta.json"))
+            meta["latest"] = res
+            meta["also_run"] = sorted(set(meta.get("also_run", [])) | set(res))
+            meta["detected_by"] = sorted(p for p, v in res.items() if v["exit"] == 1)
+            json.dump(meta, open(d + "/meta.json", "w"), indent=1)
